@@ -342,6 +342,7 @@ inductive Op where
   | enterA (v : Nat) | enterS (v : Nat) | enterU (v : Nat) | exit
   | mk (s g : Nat) | next (s : Nat) | close (s : Nat) | abandon (s : Nat)
   | probe | spawn (j : Nat)
+  | caught        -- the task was cancelled once and caught the `CancelledError` (its `cancelling()` stays > 0)
 deriving DecidableEq, Repr
 
 structure Label where
@@ -444,6 +445,7 @@ def stepOp (gens : Gens) (s : Sys) (idx : Nat) (t : Nat) (tk : Task) : Op → Sy
       if st.status = .dropped then (s, .bad) else
       (setStrm s h { st with status := .dropped, stack := [], cut := st.cut || st.status != .done }, .ok)
   | .probe => (s, .fp (fpOf tk.ctx s.world))
+  | .caught => (s, .ok)   -- a handled cancellation request is no business of streams, scopes or contexts
   | .spawn j =>
     match lookup s.tasks j with
     | some _ => (s, .bad)
